@@ -190,6 +190,18 @@ func (d *Dict) FromResult(r *updog.Result, err error) Res {
 		}
 		out.Groups = append(out.Groups, gg)
 	}
+	// The Result belongs to the caller.  After projecting it, it is post-processed in place the way callers do (groups
+	// re-ordered, fields relabelled, counts adjusted): no later answer may depend on what happened to an earlier one.
+	for i, j := 0, len(r.Groups)-1; i < j; i, j = i+1, j-1 {
+		r.Groups[i], r.Groups[j] = r.Groups[j], r.Groups[i]
+	}
+	for i := range r.Groups {
+		r.Groups[i].Count += 1000003
+		for k := range r.Groups[i].Fields {
+			r.Groups[i].Fields[k].Column, r.Groups[i].Fields[k].Value = "scribbled", "by the caller"
+		}
+	}
+	r.Count += 7
 	return out
 }
 
